@@ -347,3 +347,134 @@ Fixpoint trace (f : frame) (es : list entry) : list (aout * list row * bool * bo
 Definition c05_hist_show (c : init * list entry * (list row * bool * bool) * list (oout * list row * bool * bool))
   : list row * list (aout * list row * bool * bool) :=
   let '(i, es, o0, obs) := c in (frows (init_frame i), trace (init_frame i) es).
+
+(* ================================================================================================ *)
+(* Sessions: schema OBJECTS that are used, mutated in place, and used again (round 3).               *)
+(* A session owns a list of RelationSchema objects (addressed by position) and at most one current   *)
+(* DataFrame, created from one of them.  The frame keeps a REFERENCE to its schema object            *)
+(* (dataframe.py:89 self._schema = schema), so append validates against that object's columns as     *)
+(* they are at the time of the call, but the Row class with the field names is made once, when the   *)
+(* frame is created (dataframe.py:91 Row.create_class): the field list is a snapshot.                *)
+
+(* in-place changes of a schema object *)
+Inductive mut :=
+| MAdd (c : column)                    (* schema.columns.append(c) *)
+| MInsert (c : column)                 (* schema.columns.insert(0, c) *)
+| MPop (k : key)                       (* schema.pop_column(k): removes the first column of that name, if any *)
+| MSetType (i : nat) (t : option N)    (* schema.columns[i].type = t *)
+| MSetNullable (i : nat) (b : bool)    (* schema.columns[i].nullable = b *)
+| MRename (i : nat) (k : key)          (* schema.columns[i].name = k *)
+| MReverse.                            (* schema.columns.reverse() *)
+
+Fixpoint pop_first (k : key) (s : schema) : schema :=
+  match s with
+  | [] => []
+  | c :: r => if N.eqb (cname c) k then r else c :: pop_first k r
+  end.
+
+Fixpoint update_nth {A : Type} (i : nat) (f : A -> A) (l : list A) : list A :=
+  match l, i with
+  | [], _ => []                       (* index out of range: never generated (Python would raise IndexError) *)
+  | x :: r, O => f x :: r
+  | x :: r, S j => x :: update_nth j f r
+  end.
+
+Definition apply_mut (m : mut) (s : schema) : schema :=
+  match m with
+  | MAdd c => s ++ [c]
+  | MInsert c => c :: s
+  | MPop k => pop_first k s
+  | MSetType i t => update_nth i (fun c => mkcol (cname c) t (cnullable c)) s
+  | MSetNullable i b => update_nth i (fun c => mkcol (cname c) (ctype c) b) s
+  | MRename i k => update_nth i (fun c => mkcol k (ctype c) (cnullable c)) s
+  | MReverse => rev s
+  end.
+
+Inductive sop :=
+| SValidate (o : nat) (e : entry)      (* <schema object o>.validate(e) *)
+| SMutate (o : nat) (m : mut)          (* change schema object o in place *)
+| SNewFrame (o : nat)                  (* DataFrame(rows=[], schema=<schema object o>) becomes the current frame *)
+| SAppend (e : entry).                 (* <current frame>.append(e) *)
+
+Record sstate := mkss {
+  sobjs : list schema;                 (* the current columns of every schema object *)
+  sframe : option (nat * frame)        (* current frame: (its schema object, state); fk = FSchema <columns at creation> *)
+}.
+
+Definition obj (st : sstate) (o : nat) : schema := nth o (sobjs st) [].
+
+(* append to a frame whose schema object currently has the columns vs: validation reads vs, the row is
+   built from the frame's own (snapshot) field list *)
+Definition append_with (vs : schema) (f : frame) (e : entry) : frame * aout :=
+  match validate_entry vs e with
+  | VExcess ks => (f, ARaise (AExcess ks))
+  | VErrors m n w => (f, ARaise (AErrors m n w))
+  | VRaise x => (f, ARaise (AExn x))
+  | VOk =>
+      match step_build f e with
+      | Raise x => (f, ARaise x)
+      | Ok rw =>
+          match step_size rw with
+          | Raise x => (f, ARaise x)
+          | Ok _ => (step_store f rw, AOk)
+          end
+      end
+  end.
+
+Inductive sout :=
+| SOVerdict (v : verdict)              (* validate returned / raised *)
+| SOUnit                               (* a mutation or a frame creation *)
+| SOAppend (a : aout) (f : frame)      (* append's outcome and the frame afterwards *)
+| SONoFrame.                           (* append without a frame: not a session the harness runs *)
+
+Definition sstep (st : sstate) (op : sop) : sstate * sout :=
+  match op with
+  | SValidate o e => (st, SOVerdict (validate_entry (obj st o) e))
+  | SMutate o m => (mkss (update_nth o (apply_mut m) (sobjs st)) (sframe st), SOUnit)
+  | SNewFrame o => (mkss (sobjs st) (Some (o, init_frame (IRows (obj st o) []))), SOUnit)
+  | SAppend e =>
+      match sframe st with
+      | None => (st, SONoFrame)
+      | Some (o, f) =>
+          let '(f1, a) := append_with (obj st o) f e in
+          (mkss (sobjs st) (Some (o, f1)), SOAppend a f1)
+      end
+  end.
+
+Fixpoint srun (st : sstate) (ops : list sop) : sstate * list sout :=
+  match ops with
+  | [] => (st, [])
+  | op :: rest =>
+      let '(st1, x) := sstep st op in
+      let '(st2, xs) := srun st1 rest in (st2, x :: xs)
+  end.
+
+(* what the harness observed for one operation *)
+Inductive sobs :=
+| BValidate (o : oout)
+| BUnit
+| BAppend (o : oout) (rows : list row) (nb cur : bool).
+
+Definition sout_matches (x : sout) (b : sobs) : bool :=
+  match x, b with
+  | SOVerdict v, BValidate o => verdict_matches v o
+  | SOUnit, BUnit => true
+  | SOAppend a f, BAppend o rows nb cur => verdict_matches (aout_verdict a) o && state_matches f (rows, nb, cur)
+  | _, _ => false
+  end.
+
+Fixpoint souts_match (xs : list sout) (bs : list sobs) : bool :=
+  match xs, bs with
+  | [], [] => true
+  | x :: xs', b :: bs' => sout_matches x b && souts_match xs' bs'
+  | _, _ => false
+  end.
+
+(* a case: (the schema objects as created, the operations, what was observed for each) *)
+Definition c05_session_case : Type := (list schema * list sop * list sobs)%type.
+
+Definition c05_session_check (c : c05_session_case) : bool :=
+  let '(objs, ops, obs) := c in souts_match (snd (srun (mkss objs None) ops)) obs.
+
+Definition c05_session_show (c : c05_session_case) : list sout :=
+  let '(objs, ops, obs) := c in snd (srun (mkss objs None) ops).
